@@ -1097,3 +1097,41 @@ Proof.
   all: try (right; right; eauto; fail).
   all: exfalso; rewrite Ex in *; cbn in *; discriminate.
 Qed.
+
+(** * 9. The others wait and then use what the worker left: they do not repeat the work *)
+
+(** program counters of a goroutine that has re-entered with loading disabled *)
+Definition lazy (p : pc) : bool :=
+  match p with
+  | PStart false | PLoadReg false | PGate1 false | PLoadWait _ _ | PRet _ | PDone _ => true
+  | _ => false
+  end.
+
+Lemma wake_is_lazy s t th s' th' : thread_step s t th AWake = Some s' -> thr s' t = Some th' ->
+  lazy (t_pc th') = true.
+Proof.
+  intros H Ht'. unfold thread_step in H.
+  destruct (t_pc th); try discriminate; apply guard_some in H as [_ H]; inv H;
+    cbn in Ht'; rewrite upd_same in Ht'; inv Ht'; reflexivity.
+Qed.
+
+Lemma lazy_closed s t th a s' th' : lazy (t_pc th) = true ->
+  thread_step s t th a = Some s' -> thr s' t = Some th' -> lazy (t_pc th') = true.
+Proof.
+  intros L H Ht'. unfold thread_step in H.
+  destruct (t_pc th) eqn:P; cbn in L; try discriminate; try (destruct load; try discriminate);
+    destruct a; try discriminate;
+    repeat match type of H with
+           | guard _ _ = Some _ => apply guard_some in H as [?G H]
+           | context [match ?x with _ => _ end] => destruct x eqn:?
+           | context [if ?x then _ else _] => destruct x eqn:?
+           end; inv H; cbn in Ht'; rewrite ?upd_same in Ht'; inv Ht'; reflexivity.
+Qed.
+
+(** no lazy program counter is one from which storage is read or the issuer called *)
+Lemma lazy_no_work p : lazy p = true ->
+  match p with
+  | PLoad | PObtain _ _ | PObtLoad _ | PRenLoad _ _ _ _ | PRenIssue _ _ _ _ | PRenReload _ _ _ => False
+  | _ => True
+  end.
+Proof. destruct p; cbn; try discriminate; auto. Qed.
